@@ -134,11 +134,18 @@ def make_components():
         return "inertiaZ {\n%s  axis %s\n%s" % (grp("atoms", a), vec(ax), extra), [a]
     C["inertiaZ"] = ("scalar", inertia_z)
 
+    def exps(rng):
+        """even exponents, numerator smaller than denominator, ratios on both sides of 2 and 3"""
+        en = rng.choice([2, 4, 6, 8])
+        ed = en + 2 * rng.randint(1, en + 2)
+        return en, ed
+
     def coordnum(rng, P, extra=""):
         a, b = two(rng)
         b = b + rng.sample([i for i in range(NAT) if i not in a and i not in b], 2)
+        en, ed = exps(rng)
         return "coordNum {\n%s%s  cutoff %s\n  expNumer %d\n  expDenom %d\n%s" % (
-            grp("group1", a), grp("group2", b), num(rng.uniform(1.5, 3.0)), rng.choice([4, 6]), rng.choice([8, 12]), extra), [a, b]
+            grp("group1", a), grp("group2", b), num(rng.uniform(1.5, 3.0)), en, ed, extra), [a, b]
     C["coordNum"] = ("scalar", coordnum)
 
     def coordnum_aniso(rng, P, extra=""):
@@ -167,17 +174,20 @@ def make_components():
 
     def selfcoordnum(rng, P, extra=""):
         a = many(rng, 3, 6)
-        return "selfCoordNum {\n%s  cutoff %s\n%s" % (grp("group1", a), num(rng.uniform(1.5, 3.0)), extra), [a]
+        en, ed = exps(rng)
+        return "selfCoordNum {\n%s  cutoff %s\n  expNumer %d\n  expDenom %d\n%s" % (grp("group1", a), num(rng.uniform(1.5, 3.0)), en, ed, extra), [a]
     C["selfCoordNum"] = ("scalar", selfcoordnum)
 
     def groupcoord(rng, P, extra=""):
         a, b = two(rng)
-        return "groupCoord {\n%s%s  cutoff %s\n%s" % (grp("group1", a), grp("group2", b), num(rng.uniform(1.5, 3.0)), extra), [a, b]
+        en, ed = exps(rng)
+        return "groupCoord {\n%s%s  cutoff %s\n  expNumer %d\n  expDenom %d\n%s" % (grp("group1", a), grp("group2", b), num(rng.uniform(1.5, 3.0)), en, ed, extra), [a, b]
     C["groupCoord"] = ("scalar", groupcoord)
 
     def hbond(rng, P, extra=""):
         s = rng.sample(range(NAT), 2)
-        return "hBond {\n  acceptor %d\n  donor %d\n  cutoff %s\n%s" % (s[0] + 1, s[1] + 1, num(rng.uniform(2.0, 3.5)), extra), [[s[0]], [s[1]]]
+        en, ed = exps(rng)
+        return "hBond {\n  acceptor %d\n  donor %d\n  cutoff %s\n  expNumer %d\n  expDenom %d\n%s" % (s[0] + 1, s[1] + 1, num(rng.uniform(2.0, 3.5)), en, ed, extra), [[s[0]], [s[1]]]
     C["hBond"] = ("scalar", hbond)
 
     def rmsd(rng, P, extra=""):
